@@ -122,7 +122,7 @@ def check(tier, seed):
     except fw.CheckFailure as e:
         model_err = str(e)
 
-    n = 70 if tier == 'quick' else 900
+    n = 70 if tier == 'quick' else 3000
     cases = inclib.gen_split_cases(rng, n)
     for c in list(cases)[::4]:
         cases += inclib.fault_cases(rng, c['files'], c['main'], strict=c['strict'], label=c['label'])
